@@ -129,13 +129,25 @@ def mkey(m):
     return (type(m).__name__, m.adapter.name, m.astart, m.astop, m.rstart, m.rstop, m.score, m.errors)
 
 
+def ref_score_errors(m):
+    """Score and errors of a match; for a linked match the sums over the parts that were found (computed here, not
+    taken from the LinkedMatch object)."""
+    import cutadapt.adapters as A
+
+    if isinstance(m, A.LinkedMatch):
+        parts = [x for x in (m.front_match, m.back_match) if x is not None]
+        return sum(x.score for x in parts), sum(x.errors for x in parts)
+    return m.score, m.errors
+
+
 def ref_best(adapters, seq):
     """Reference choice: maximal score, then fewer errors, then the adapter given first."""
     cands = []
     for pos, a in enumerate(adapters):
         m = a.match_to(seq)
         if m is not None:
-            cands.append((-m.score, m.errors, pos, m))
+            sc, er = ref_score_errors(m)
+            cands.append((-sc, er, pos, m))
     if not cands:
         return None, []
     cands.sort(key=lambda c: c[:3])
